@@ -1,5 +1,6 @@
 from __future__ import annotations
 
+import operator
 import weakref
 from _weakref import ref as weakref_ref
 from abc import ABC, abstractmethod
@@ -202,15 +203,31 @@ class MonitoredList(MonitoredContainer, list):
         super().append(item)
 
     def __setitem__(self, idx, value):
+        # the position refers to the list as it is now: recording may append inferred elements to it
         if isinstance(idx, slice):
+            idx = slice(*idx.indices(len(self)))
             value = [self._on_add(v) for v in value]
         else:
+            idx = self._position_now(idx)
             value = self._on_add(value)
         super().__setitem__(idx, value)
 
     def insert(self, idx, item):
+        idx = self._position_now(idx, for_insert=True)
         item = self._on_add(item)
         super().insert(idx, item)
+
+    def _position_now(self, idx, for_insert: bool = False) -> int:
+        """
+        :return: The position `idx` denotes in the list as it is now, as a non-negative index.
+        """
+        idx = operator.index(idx)
+        size = len(self)
+        if for_insert:
+            return min(max(idx + size if idx < 0 else idx, 0), size)
+        if not -size <= idx < size:
+            raise IndexError("list assignment index out of range")
+        return idx + size if idx < 0 else idx
 
     def _remove_item(self, item):
         self.remove(item)
